@@ -40,7 +40,10 @@ def scenarios(draw):
         groups = groups[:nfiles] if len(groups) >= nfiles else (groups + ["f1", "f2", "f3", "f4"])[:nfiles]
     sc["nfiles"] = nfiles
     delim = src.choice(["_", "@", "-", "__"]) if mode == "read_id" else None
-    tag = src.choice(["RG", "CB"]) if mode == "tag" else None
+    # HP: integer-typed tag (haplotagging tools write HP:i:<n>); its groups are the numbers as text
+    tag = src.choice(["RG", "CB", "HP"]) if mode == "tag" else None
+    if tag == "HP":
+        groups = [str(i + 1) for i in range(len(groups))]
     k = 0
     table = {}
     truth = {}
@@ -55,7 +58,7 @@ def scenarios(draw):
                 name = ("m%d%sx%d" % (k, delim, k) + delim + grp) if not ungroupable else "m%dq" % k
             r, _t = S.read_from_chain(src, name, g["chr"], g["strand"], t["exons"], delta=delta, trunc_p=0.4)
             if mode == "tag" and not ungroupable:
-                r["tags"] = {tag: grp}
+                r["tags"] = {tag: int(grp) if tag == "HP" else grp}
             elif mode == "tag" and src.bool(0.5):
                 r["tags"] = {"XX": grp}
             if mode == "file" and not ungroupable:
@@ -91,6 +94,10 @@ def scenarios(draw):
     tq, gq = src.choice(counting.STRATEGIES), src.choice(counting.STRATEGIES)
     sc["opts"] = ["--data_type", dt, "--no_gzip", "--threads", str(src.choice([1, 2, 3])),
                   "--transcript_quantification", tq, "--gene_quantification", gq]
+    # output prefix: words that also occur in the names of the output files
+    sc["prefix"] = src.choice(["OUT", "OUT", "OUT", "linear", "grouped", "counts", "t", "sample_1", "tsv"])
+    if sc["prefix"] != "OUT":
+        sc["opts"] += ["--prefix", sc["prefix"]]
     if src.bool(0.75):
         sc["opts"] += ["--no_model_construction"]
     if fmt:
@@ -142,7 +149,7 @@ def evaluate(case, ctx):
             ctx.violation("C09:run-aborted:%s:%s" % (mode, res.crash_signature().split("@")[0]),
                           {"exit": res.code, "log": res.log_tail(12)}, case)
             return
-        tsvp = res.path("read_assignments.tsv")
+        tsvp = res.path("read_assignments.tsv", prefix=sc.get("prefix", "OUT"))
         rows = parse.read_assignments(tsvp)
         records = parse.records_of(rows)
         file_of = {}
@@ -164,9 +171,9 @@ def evaluate(case, ctx):
         n_groups_seen = set()
         for level, strategy in (("transcript", sc["tq"]), ("gene", sc["gq"])):
             exp, specials, contrib, multi = counting.expected_counts(records, level, strategy, group_of)
-            ung = parse.counts_simple(res.path("%s_counts.tsv" % level))
-            mp = res.path("%s_grouped_counts.tsv" % level)
-            lp = res.path("%s_grouped_counts_linear.tsv" % level)
+            ung = parse.counts_simple(res.path("%s_counts.tsv" % level, prefix=sc.get("prefix", "OUT")))
+            mp = res.path("%s_grouped_counts.tsv" % level, prefix=sc.get("prefix", "OUT"))
+            lp = res.path("%s_grouped_counts_linear.tsv" % level, prefix=sc.get("prefix", "OUT"))
             cells_m = cells_l = None
             if fmt in ("matrix", "both"):
                 if not mp:
@@ -233,7 +240,7 @@ def evaluate(case, ctx):
                         ctx.violation("C09:%s-groups-do-not-sum-to-ungrouped:%s" % (name, level),
                                       {"feature": f, "sum": tot, "ungrouped": u, "row": row}, case)
             # grouped TPM: each column rescales its own column
-            tpmp = res.path("%s_grouped_tpm.tsv" % level)
+            tpmp = res.path("%s_grouped_tpm.tsv" % level, prefix=sc.get("prefix", "OUT"))
             if tpmp and cells_m is not None and mp:
                 g2, tm = parse.counts_matrix(tpmp)
                 if g2 is not None and groups and g2 == groups:
